@@ -170,7 +170,8 @@ def judge_split(before, pairs, jordan_after, exact, had_exception=None):
         if not any(near(j, q) for q in old_junctions) and not any(near(j, q) for q in requested):
             out.append(("junction %s is neither an old junction nor a requested split point" % S.fmt_point((float(j[0]), float(j[1]))), {}))
             break
-    if exact and not clustered and len(new_junctions) != len(set(old_junctions) | set(requested)):
+    if exact and not clustered and len(set(old_junctions)) == len(old_junctions) and \
+            len(new_junctions) != len(set(old_junctions) | set(requested)):
         out.append(("split created %d junctions, expected %d distinct ones" % (
             len(new_junctions), len(set(old_junctions) | set(requested))), {}))
     return out
